@@ -39,8 +39,12 @@ CLAIMED = {
     'C21': dict(
         text='Per-iteration decision contract of retry_transient_errors_with_debug_string and sync_retry_transient_errors for every number of previous '
         'failures (loop invariant tries == #failures): re-raise iff the error is not retryable per the spec table, raise exactly the error f raised, '
-        'sleep exactly delay_ms_for_try(#failures)/1000, return f\'s value unchanged; delay_ms_for_try bounds [min(c//2,max), min(c,max)] proved for all arguments.',
-        note=COMMON_NOTE + 'The operation f is an oracle; the three classifier functions are uninterpreted predicates (their bodies are not under contract); '
+        'sleep exactly delay_ms_for_try(#failures)/1000, return f\'s value unchanged; delay_ms_for_try bounds [min(c//2,max), min(c,max)] proved for all arguments. '
+        'Classifiers: http clauses (rate limit => transient; 400 + listed message anywhere in e.body => limited retry), an error of no tested class is classified by '
+        'its explicit __cause__ chain alone (never by __context__); hailtop.httpx ClientSession.request attaches the whole decoded response body and the status to the '
+        'ClientResponseError it raises for status >= 400.',
+        note=COMMON_NOTE + 'The operation f is an oracle; inside the loops the three classifiers are uninterpreted predicates; which exception classes they count as '
+        'transient is not decided (isinstance is an uninterpreted predicate per class); the aiohttp transport is an oracle, bytes.decode() an uninterpreted function; '
         'random.randrange(n) in [0,n); division by 1000.0 treated as real division.',
         technique='per-iteration contract + loop invariant on real source, pyvc -> z3',
         design_ref='7/C21',
